@@ -2,7 +2,7 @@
    Only ExtrOcamlBasic: bool/option/unit/list/prod/sumbool/sumor map to OCaml's; numbers stay
    the extracted inductive types positive / N / Z.  No Extract Constant of ours. *)
 From Coq Require Extraction ExtrOcamlBasic.
-From Upa Require Import Base.Prelude Spec.Proto Spec.Proto2 Spec.Api Spec.Url Impl.Api Impl.Parser Impl.BufProto Impl.SerProto.
+From Upa Require Import Base.Prelude Spec.Proto Spec.Proto2 Spec.Api Spec.Url Impl.Api Impl.Parser Impl.BufProto Impl.SerProto Impl.TraceProto.
 Extraction Language OCaml.
 (* two instances of the same protocol interpreter: the Standard's parser and the model of the C++ parser;
    can_parse_impl is the need_save = false run of the C++ parser model *)
@@ -12,4 +12,4 @@ Definition run_line_impl (idna : list N -> option (list N)) := Spec.Proto2.run_l
 Definition can_parse_impl := Impl.Parser.can_parse.
 (* buf_line: the size-arithmetic commands (Impl.Buffer), ser_line: operation sequences of url_serializer / url_setter
    (Impl.Serializer); both are tried before the protocol interpreter *)
-Extraction "model.ml" run_line_spec run_line_impl can_parse_impl Spec.Proto.init_ps Impl.BufProto.buf_line Impl.SerProto.ser_line.
+Extraction "model.ml" run_line_spec run_line_impl can_parse_impl Spec.Proto.init_ps Impl.BufProto.buf_line Impl.SerProto.ser_line Impl.TraceProto.trace_line.
